@@ -51,6 +51,22 @@ OPEN (false, see the two witnesses): `∀ bs, lossy bs = lossySpec bs`. -/
 theorem lossy_eq_spec_partial (bs : Bytes) (h : tailLoss bs = false) : lossy bs = lossySpec bs :=
   lossyGo_orig bs.length bs _ (Nat.le_refl _) (by omega) h
 
+/-- The two-flag port used by the driver (one flag per repaired defect, selected by probing the
+real code) coincides with the proved ports on the diagonal. -/
+theorem lossyV_diag (b : Bool) (bs : Bytes) : lossyV b b bs = lossyF b bs := by
+  have hn : ∀ it : LossyIt, it.nextV b b = it.next b := fun it => rfl
+  have hg : ∀ (fuel : Nat) (it : LossyIt), lossyGoV b b fuel it = lossyGo b fuel it := by
+    intro fuel
+    induction fuel with
+    | zero => intro it; rfl
+    | succ f ih =>
+      intro it
+      simp only [lossyGoV, lossyGo, hn]
+      cases it.next b with
+      | none => rfl
+      | some p => simp only [ih]
+  exact hg _ _
+
 /-- non-vacuity: an input with valid, invalid and multi-byte parts that satisfies the hypothesis -/
 example : tailLoss [97, 0xC0, 0xC1, 0xC3, 0xA9, 98] = false ∧
     lossy [97, 0xC0, 0xC1, 0xC3, 0xA9, 98] = [97, 0xEF, 0xBF, 0xBD, 0xEF, 0xBF, 0xBD, 0xC3, 0xA9, 98] := by decide
